@@ -307,6 +307,21 @@ pub fn probe_access() {
     }
 }
 
+/// Harness-side report of a read access to the wrapped iterator (e.g. `size_hint`).
+pub fn probe_read_access() {
+    let tid = TID.with(|t| t.get());
+    if tid == NOBODY {
+        return;
+    }
+    if let Some(s) = active() {
+        if std::thread::panicking() || s.abort.load(Ordering::Relaxed) {
+            return;
+        }
+        let inner = unsafe { &mut *s.inner.get() };
+        inner.hb.read_access(tid);
+    }
+}
+
 impl Sched {
     pub fn new(n: usize, policy: Policy, seed: u64, freeze: Option<(usize, u64)>) -> Box<Sched> {
         assert!(n >= 1 && n <= MAXT);
@@ -679,6 +694,8 @@ pub struct Hb {
     pending_acq: [Vc; MAXT],
     fence_rel: [Option<Vc>; MAXT],
     last_access: Option<(usize, u32)>,
+    /// epoch of the latest read access of each thread since the last write access (0 = none)
+    last_reads: [u32; MAXT],
     rep: HbReport,
 }
 
@@ -688,7 +705,7 @@ impl Hb {
         for (t, v) in vc.iter_mut().enumerate() {
             v[t] = 1;
         }
-        Hb { n, vc, loc: HashMap::new(), pending_acq: [[0; MAXT]; MAXT], fence_rel: [None; MAXT], last_access: None, rep: HbReport::default() }
+        Hb { n, vc, loc: HashMap::new(), pending_acq: [[0; MAXT]; MAXT], fence_rel: [None; MAXT], last_access: None, last_reads: [0; MAXT], rep: HbReport::default() }
     }
     fn tick(&mut self, t: usize) {
         self.vc[t][t] += 1;
@@ -765,9 +782,36 @@ impl Hb {
                 }
             }
         }
+        // a write must also be ordered after every earlier read by another thread
+        for a in 0..self.n {
+            let c = self.last_reads[a];
+            if a != t && c > 0 && self.vc[t][a] < c {
+                self.rep.unordered += 1;
+                if self.rep.first_unordered.is_empty() {
+                    self.rep.first_unordered = format!("access #{} (next) by thread {} is not ordered after an earlier read access (size_hint) by thread {}", self.rep.accesses, t, a);
+                }
+            }
+            self.last_reads[a] = 0;
+        }
         self.last_access = Some((t, self.vc[t][t]));
         self.tick(t);
-        let _ = self.n;
+    }
+    /// non-atomic read access to the wrapped iterator (size_hint)
+    fn read_access(&mut self, t: usize) {
+        self.rep.accesses += 1;
+        if let Some((a, c)) = self.last_access {
+            if a != t {
+                self.rep.handoffs += 1;
+                if self.vc[t][a] < c {
+                    self.rep.unordered += 1;
+                    if self.rep.first_unordered.is_empty() {
+                        self.rep.first_unordered = format!("read access #{} (size_hint) by thread {} is not ordered after the previous next() by thread {}", self.rep.accesses, t, a);
+                    }
+                }
+            }
+        }
+        self.last_reads[t] = self.vc[t][t];
+        self.tick(t);
     }
     fn report(&self) -> HbReport {
         self.rep.clone()
